@@ -182,6 +182,9 @@ def verify_case(case, repo=None, summaries_lib=None, seed=0, scope=None):
                         cond = f(inp, p.value)
                         if cond is SKIP:
                             continue
+                        if label in case.known:
+                            from .spec import Or as _Or
+                            cond = _Or(case.known[label]["carve"](inp), cond)
                     except Exception as ex:
                         st, m, dt = _check(solver, False, case.timeout_ms)
                         res.v(name).add(st, dt, prims_of(m), f"postcondition not evaluable on result "
